@@ -884,6 +884,47 @@ func ruleREF5(p *Program) *RuleResult {
 		}
 		return true
 	})
+	// the same fact by evaluation, when the reader is written so that it folds: the
+	// components handed to NewCanonicalIdentity for a marked canonical
+	if strings.Join(keys, ",") != "url,version,fragment" {
+		if ifr, err := p.Func("internal/element/canonical", "IdentityFromReference"); err == nil {
+			if ct := typeByName(p, dtPkgPath, "Canonical"); ct != nil {
+				st := ct.Underlying().(*types.Struct)
+				e := aval{k: kStruct}
+				for i := 0; i < st.NumFields(); i++ {
+					if st.Field(i).Name() == "Value" {
+						e.elems = append(e.elems, cStr("http://example.org/fhir/ValueSet/vs|1.2.3#frag-1"))
+					} else {
+						e.elems = append(e.elems, zeroOf(st.Field(i).Type()))
+					}
+				}
+				an := newAnalyzer()
+				an.maxBlocks = 200
+				an.regex = rg
+				an.callModel = pan3Model(rg)
+				var got []string
+				an.fnModel = func(sc *ssa.Function, args []aval) (aval, bool) {
+					if sc.Name() == "NewCanonicalIdentity" && len(args) == 3 {
+						got = nil
+						for _, a := range args {
+							if v, ok := constStr(a); ok {
+								got = append(got, v)
+							} else {
+								got = append(got, "?")
+							}
+						}
+					}
+					return aval{}, false
+				}
+				an.analyze(ifr, []aval{ptrTo(e)})
+				if strings.Join(got, ",") == "http://example.org/fhir/ValueSet/vs,1.2.3,frag-1" {
+					keys = []string{"url", "version", "fragment"}
+				} else if len(got) == 3 && !strings.Contains(strings.Join(got, ","), "?") {
+					keys = got
+				}
+			}
+		}
+	}
 	if strings.Join(keys, ",") == "url,version,fragment" {
 		r.ok("canonical.IdentityFromReference|group order", "the named groups url, version, fragment are passed to NewCanonicalIdentity in that order", p.pos(fd.Pos()), "argument keys of the constructor call", true)
 	} else {
@@ -1035,8 +1076,25 @@ func purityInventoryOf(p *Program, rule, okKey, what string, minFuncs int, prefi
 						if _, isMap := elem.Underlying().(*types.Map); isMap && ld.Referrers() != nil {
 							ro := true
 							for _, ref := range *ld.Referrers() {
-								switch ref.(type) {
+								switch y := ref.(type) {
 								case *ssa.Lookup, *ssa.Range, *ssa.DebugRef:
+								case *ssa.Call:
+									// handed to an in-repo function that only looks up / ranges over that parameter
+									sc := y.Common().StaticCallee()
+									okArg := sc != nil && inRepoFn(sc)
+									if okArg {
+										for ai, a := range y.Common().Args {
+											if a == ssa.Value(ld) && !mapParamReadOnly(sc, ai, 0) {
+												okArg = false
+											}
+										}
+									}
+									if bi, isB := y.Common().Value.(*ssa.Builtin); isB && bi.Name() == "len" {
+										okArg = true
+									}
+									if !okArg {
+										ro = false
+									}
 								default:
 									ro = false
 								}
@@ -1065,6 +1123,50 @@ func purityInventoryOf(p *Program, rule, okKey, what string, minFuncs int, prefi
 	}
 	r.floor("functions", minFuncs)
 	return r
+}
+
+// mapParamReadOnly: the idx-th parameter (a map) of fn is only looked up, ranged
+// over, measured, or handed to functions that do the same.
+func mapParamReadOnly(fn *ssa.Function, idx int, depth int) bool {
+	if depth > 3 || idx >= len(fn.Params) || len(fn.Blocks) == 0 {
+		return false
+	}
+	prm := fn.Params[idx]
+	if prm.Referrers() == nil {
+		return true
+	}
+	for _, ref := range *prm.Referrers() {
+		switch y := ref.(type) {
+		case *ssa.Lookup, *ssa.Range, *ssa.DebugRef:
+		case *ssa.ChangeType:
+			// a generic helper converts its ~map parameter to the core map type
+			if y.Referrers() != nil {
+				for _, r2 := range *y.Referrers() {
+					switch r2.(type) {
+					case *ssa.Lookup, *ssa.Range, *ssa.DebugRef:
+					default:
+						return false
+					}
+				}
+			}
+		case *ssa.Call:
+			if bi, ok := y.Common().Value.(*ssa.Builtin); ok && bi.Name() == "len" {
+				continue
+			}
+			sc := y.Common().StaticCallee()
+			if sc == nil || !inRepoFn(sc) {
+				return false
+			}
+			for ai, a := range y.Common().Args {
+				if a == ssa.Value(prm) && !mapParamReadOnly(sc, ai, depth+1) {
+					return false
+				}
+			}
+		default:
+			return false
+		}
+	}
+	return true
 }
 
 // sliceParamReadOnly: the idx-th parameter (a slice) of fn is only indexed,
